@@ -934,7 +934,7 @@ Qed.
 Lemma step_inv s o : Inv s -> Inv (fst (step cops s o)).
 Proof.
   intros H. pose proof (rd_rect s) as RD. destruct o; cbn [step cops t_new_records t_new_cols t_new_rows t_set t_del t_getrow t_getcol t_tuple t_apply t_iter
-    t_slice t_mask t_ints t_proj t_call t_relabel t_do t_concat t_of_record]; try exact H;
+    t_slice t_mask t_ints t_proj t_call t_relabel t_do t_concat t_of_record t_keys]; try exact H;
     try (apply fresh_inv; [assumption|intros t E]); try (apply inplace_inv; [assumption|intros t E]).
   - eapply rect_new_records; [apply Forall_dict_of_nodup|eassumption].
   - eapply rect_new_cols; eassumption.
@@ -956,6 +956,7 @@ Proof.
   - inversion E; subst. apply RD. assumption.
   - destruct (Z.eqb s0 0); [discriminate|]. eapply rect_ints; [apply RD; assumption|eassumption].
   - inversion E; subst. apply sub_ref. apply RD. assumption.
+  - eapply rect_proj; [apply RD; assumption|eassumption].
 Qed.
 
 (* one step of the dict-of-lists model commutes with the abstraction and yields the same output *)
@@ -963,7 +964,7 @@ Lemma step_ref s o : Inv s -> step rops (abs_state s) o = (abs_state (fst (step 
 Proof.
   intros H. pose proof (rd_rect s) as RD. pose proof (rd_abs s) as RA.
   destruct o; cbn [step cops rops t_new_records t_new_cols t_new_rows t_set t_del t_getrow t_getcol t_tuple t_apply t_iter
-    t_slice t_mask t_ints t_proj t_call t_relabel t_do t_concat t_of_record]; repeat rewrite RA;
+    t_slice t_mask t_ints t_proj t_call t_relabel t_do t_concat t_of_record t_keys]; repeat rewrite RA;
     try (apply fresh_ref); try (apply inplace_ref).
   - apply ref_new_records.
   - apply ref_new_cols.
@@ -998,6 +999,7 @@ Proof.
   - reflexivity.
   - destruct (Z.eqb s0 0); [reflexivity|]. apply ref_ints. apply RD. assumption.
   - rewrite (proj1 (sub_ref ks _ (RD r H))). reflexivity.
+  - cbn [cols abs]. apply ref_proj. apply RD. assumption.
 Qed.
 
 Lemma run_fold_inv ops s acc : Inv s ->
